@@ -786,9 +786,63 @@ fn pm1base_case(rng: &mut Rng, iters: u64) {
     }
 }
 
+
+/// scalar1024_chainmul against nested 64-bit double-and-add: [a b c ..]P = [a]([b]([c] .. P)). The multiword chain
+/// builder `make_addition_chain_long` is only an ASSUMED contract of the proofs; this probes it on scalars that are
+/// products of 64-bit factors, among them 2^128 - 1 and 2^192 - 1 (all-ones words: carries across the 64-bit refills)
+fn chainmul1024(rng: &mut Rng, iters: u64) {
+    use yamaquasi::arith_montgomery::ZmodN;
+    use yamaquasi::ecm::Curve;
+    use bnum::types::U1024;
+    let n = Uint::from(10007u64 * 10009u64);
+    let Some(c) = Curve::from_point(ZmodN::new(n), 2, 10).ok() else { return };
+    let f128: Vec<u64> = vec![3, 5, 17, 257, 641, 65537, 274177, 6700417, 67280421310721];
+    let f192: Vec<u64> = vec![9, 5, 7, 13, 17, 97, 193, 241, 257, 641, 673, 65537, 6700417, 22253377, 18446744069414584321];
+    let mut sets: Vec<Vec<u64>> = vec![f128.clone(), f192.clone(), vec![u64::MAX, u64::MAX], vec![u64::MAX; 15], vec![1 << 63; 16], vec![(1 << 32) + 1; 16]];
+    let mut both = f128.clone(); both.extend(f192.iter()); sets.push(both);
+    for _ in 0..iters.min(400) {
+        let k = 1 + rng.next() % 16;
+        sets.push((0..k).map(|i| match (rng.next() + i) % 4 { 0 => rng.word() | 1, 1 => u64::MAX - rng.next() % 4, 2 => 1 << (rng.next() % 64), _ => rng.next() | 1 }).collect());
+    }
+    for fs in sets {
+        let mut k = U1024::ONE;
+        let mut bits = 0;
+        let mut used = vec![];
+        for &f in &fs {
+            let fb = 64 - f.leading_zeros();
+            if bits + fb > 1020 { break; }
+            bits += fb;
+            k = k * U1024::from(f);
+            used.push(f);
+        }
+        let r = catch_unwind(AssertUnwindSafe(|| {
+            let mut p1 = c.gen().clone();
+            for &f in &used { p1 = c.scalar64_mul_dbladd(f, &p1); }
+            let p2 = c.scalar1024_chainmul(&k, c.gen());
+            (format!("{:?}", p1), format!("{:?}", p2))
+        }));
+        match r {
+            Err(_) => fail("chainmul1024", format!("scalar1024_chainmul({k}) on the curve through (2,10) mod 10007*10009: panic")),
+            Ok((a, b)) => {
+                let limbs = |s: &str| -> Vec<u128> {
+                    s.split("MInt([").skip(1).map(|t| t.split(',').next().unwrap().trim().parse::<u128>().unwrap()).collect()
+                };
+                let (pa, pb) = (limbs(&a), limbs(&b));
+                if pa.len() != 3 || pb.len() != 3 { continue; }
+                let nn = 10007u128 * 10009u128;
+                let eq = |i: usize, j: usize| (pa[i] * pb[j]) % nn == (pa[j] * pb[i]) % nn;
+                if !(eq(0, 1) && eq(1, 2) && eq(0, 2)) {
+                    fail("chainmul1024", format!("scalar1024_chainmul({k}) != nested scalar64_mul_dbladd over the factors {used:?} on the curve through (2,10) mod 10007*10009"));
+                }
+            }
+        }
+    }
+}
+
 pub fn run(case: &str, rng: &mut Rng, iters: u64) -> bool {
     match case {
         "pp1" => pp1_case(),
+        "chainmul1024" => chainmul1024(rng, iters),
         "pm1base" => pm1base_case(rng, iters),
         "invmod64" => invmod64_case(rng, iters),
         "primesieve" => primesieve_case(iters),
